@@ -22,7 +22,7 @@ Definition classified (r : row) : bool :=
   match r with
   | (k, p, f, e) =>
       negb (String.eqb k "maprange") ||
-      existsb (fun c => match c with (p', f', e', _) => String.eqb p p' && String.eqb f f' && String.eqb e e' end)
+      existsb (fun c => match c with (p', f', _, _) => String.eqb p p' && String.eqb f f' end)
               MapRanges.map_range_classes
   end.
 
@@ -46,7 +46,7 @@ Proof. vm_compute. reflexivity. Qed.
 
 Lemma every_map_range_classified : forall p f e,
   In ("maprange"%string, p, f, e) Inventory.inventory ->
-  exists c, In (p, f, e, c) MapRanges.map_range_classes.
+  exists e' c, In (p, f, e', c) MapRanges.map_range_classes.
 Proof.
   intros p f e H.
   pose proof inventory_deterministic_ok as I. unfold inventory_deterministic in I.
@@ -54,8 +54,8 @@ Proof.
   unfold classified in I. cbn [String.eqb negb orb] in I.
   change (String.eqb "maprange" "maprange") with true in I. cbn [negb orb] in I.
   apply existsb_exists in I as [[[[p' f'] e'] c] [Hin Hc]].
-  apply andb_prop in Hc as [Hc He]. apply andb_prop in Hc as [Hp Hf].
-  apply String.eqb_eq in Hp, Hf, He. subst. exists c. exact Hin.
+  apply andb_prop in Hc as [Hp Hf].
+  apply String.eqb_eq in Hp, Hf. subst. exists e', c. exact Hin.
 Qed.
 
 Lemma no_goroutines_clock_random : forall r, In r Inventory.inventory ->
